@@ -14,6 +14,7 @@ CLAIMS = {
  'C01': "Proof (Coq, axiom-free): update_values_pix on any well-formed sparse layout refines the dense-array update for every operation, pixel list (duplicates, any growth order) and None-clear; lifted by induction to every history from make_empty (with or without pre-allocated coverage pixels); never-written pixels read blank. Correspondence: seeded random histories over all map kinds/dtypes/sentinels/call forms incl. malformed calls; all pixels read through every read path after every step and compared with L1 and L0.",
  'C02': "Proof (Coq, axiom-free): on every well-formed map valid_pixels (through the block table) lists without repetition exactly the pixels with a valid value, the memoised count equals the dense count, valid pixels lie in covered coverage pixels, and after ANY interleaving of updates and count queries the memo is sound (cache_history). Correspondence: every accounting interface (valid_pixels, n_valid, area, __str__, valid_mask, coverage_map, fracdet_map at every resolution, per-coverage-pixel listings and sub-maps) compared with L1 and L0 after every step of random histories.",
  'C04': "Proof (Coq, axiom-free): the layout invariant holds for make_empty, is preserved by growth, update_values_pix, scalar operators, astype, invert, apply_mask, degrade and upgrade, and implies the published layout predicate; distinct pixels never share a cell; the block table inverts the index. The same extracted boolean predicate is evaluated on the implementation's raw arrays after every API call (monitor) and raw arrays are compared with the L1 state.",
+ 'C05': "Proof (Coq, axiom-free): a slice [a,b) of a well-formed bit-packed view is a well-formed view of b-a bits whose bit 0 is the parent's bit a of the same buffer, for every alignment; legal slices never raise; slices of slices compose; the first/middle/last decomposition used by every bulk operation covers exactly the view's bits in three disjoint byte groups; the population-count table is right for all 256 bytes (complete computation). The map-level theorems (C01, C02, C04, C11) are generic in the cell type and hold at V = bool. Correspondence: (A) every slice and random nested slices of arrays of every length up to a bound: view descriptors and decompositions vs the extracted model, values and every operation vs NumPy boolean arrays; (B) packed/unpacked twin maps driven by the same histories compared with each other and with L1/L0.",
  'C06': "Proof (Coq, axiom-free) about the dense specification d_apply_operation: union/intersection validity rule, value = fold in list order over exactly the valid inputs (a left-identity seed drops out), identities of the seeds of every named operation on the executable element functions, refutation of the seed 0 for max. The layout-level model of operations._apply_operation is executable and compared, with the specification, against the implementation on every run (2-4 maps, every numeric dtype, differing sentinels, wide masks, all coverage geometries, all 18 public functions); its L1->L0 refinement proof is open (partial).",
  'C07': "Proof (Coq, axiom-free): for every well-formed source (any block order), every r dividing nfine and every reduction function, coarse pixel q of degrade holds the reduction of exactly the children [q*r,(q+1)*r) (values and aligned weights) when covered and the output sentinel otherwise; layout and coverage mask preserved; a group with no valid child reduces to the sentinel for the NaN-masked reductions. Correspondence: every kind x reduction x resolution on both sides of the coverage resolution, weights with other block orders, source and weights re-observed after the call.",
  'C08': "Proof (Coq, axiom-free): what a range array contains; the coverage pixels reserved by the slice path are a superset of the needed ones; one slice-wise operation changes exactly the cells of its slice; every alignment of a single range on a 48-pixel map for replace/add decided completely by computation. The full slice path (Ops.update_ranges) is executable and compared with the explicit-pixel dense update on every run for all kinds, operations, None, thresholds and edge alignments; the general composition proof is open (partial).",
